@@ -242,7 +242,7 @@ func (h *Harness) FetchSourcePackage(ctx context.Context, sourceType string, u *
 			}
 			var resp sourcebundle.FetchSourcePackageResponse
 			if p.Meta != nil {
-				resp.PackageMeta = sourcebundle.PackageMetaWithGitMetadata(p.Meta.CommitID, p.Meta.Message)
+				resp.PackageMeta = sourcebundle.PackageMetaWithGitMetadata(p.Meta.CommitID, RawText(p.Meta.Message))
 			}
 			return resp, nil
 		}
@@ -937,6 +937,24 @@ func Reference(w World, nFinders int) Expect {
 }
 
 // ModuleExists: does the package tree contain that sub-path as a module directory?
+// RawText renders the placeholder "{xff}" as the byte 0xff, which is not valid
+// UTF-8 (commit messages in legacy encodings); cases stay serialisable as JSON.
+func RawText(s string) string { return strings.ReplaceAll(s, "{xff}", "\xff") }
+
+// HasDir reports whether the package tree contains the directory sub
+// (a module location or a directory among the extra files).
+func (p RemotePkg) HasDir(sub string) bool {
+	if p.ModuleExists(sub) {
+		return true
+	}
+	for _, n := range p.Extra {
+		if n.Kind == "dir" && n.Path == sub {
+			return true
+		}
+	}
+	return false
+}
+
 func (p RemotePkg) ModuleExists(sub string) bool {
 	for _, m := range p.Modules {
 		if m.Sub == sub {
